@@ -92,6 +92,11 @@ func cmdGrpc(args []string) {
 			&R{Op: "grpc", Kids: []*R{{Op: "wrap", Kids: []*R{cloneR(leaf)}, S: []string{"ctx"}}}, I: []int64{9}},
 			&R{Op: "hint", Kids: []*R{{Op: "withstack", Kids: []*R{cloneR(leaf)}}}, S: []string{"h"}})
 	}
+	// every code the caller can attach, including OK and application-defined ones
+	for _, code := range []int64{0, 1, 2, 16, 17, 42, 1000} {
+		corpus = append(corpus, &R{Op: "grpc", Kids: []*R{{Op: "new", S: []string{"coded"}}}, I: []int64{code}},
+			&R{Op: "wrap", Kids: []*R{{Op: "grpc", Kids: []*R{{Op: "stdnew", S: []string{"coded"}}}, I: []int64{code}}}, S: []string{"ctx"}})
+	}
 	for i := 0; i < *n; i++ {
 		corpus = append(corpus, g.Tree(1+g.r.intn(5)))
 	}
